@@ -1,12 +1,25 @@
-(* Session-level consequences of the execution-stack argument (ExecInv.v), for top-down sessions:
-   in any session of requires, from any store satisfying the store invariant (every reachable store does, History.v),
-   no task is executed twice, and every executed task was not yet consistent; a require that returns leaves all
-   executed tasks consistent.  ABug 4 (the model's graph-search fuel) is excluded as everywhere. *)
+(* Session- and history-level consequences of the execution-stack argument (ExecInv.v), for top-down sessions:
+   in any session of requires, from any store satisfying the two store invariants, no task is executed twice, and every
+   executed task was not yet consistent; a require that returns leaves all executed tasks consistent; the only aborts are
+   user-level ones (task panic, cycle, hidden dependency, overlapping write) -- never an internal-invariant error --
+   and the invariants hold again in the store an abort leaves behind, so the same is true of every later session (C19).
+   ABug 4 (the model's graph-search fuel) is excluded as everywhere. *)
 From Coq Require Import List NArith ZArith Bool Lia.
 From PieV Require Import Model.Dag Model.Build Proofs.DagLib Proofs.DagWF Proofs.DagPath Proofs.Inv Proofs.StoreInv Proofs.History
   Proofs.Effects Proofs.ExecInv.
 Import ListNotations.
 Open Scope N_scope.
+
+Definition J (w : world) : Prop := StoreOK w /\ Inv2 w.
+Lemma J_init : J init_world.
+Proof. split; [exact GOK_empty|]. split; [intros t d X; discriminate|intros t X; discriminate]. Qed.
+Lemma J_new_session w : J w -> J (new_session w).
+Proof. intros [H [N C]]. split; [exact H|]. split; [exact N|intros t X; discriminate]. Qed.
+Lemma J_set_content w r v : J w -> J (set_content w r v).
+Proof. intros X. destruct v; exact X. Qed.
+Lemma J_set_env w f : J w -> J (set_env w f). Proof. intros X. exact X. Qed.
+
+Definition good_res (r : sres) : Prop := match r with RAbort k => user_abort k | _ => True end.
 
 Section Z.
 Variable RC : rcid -> rchecker.
@@ -16,10 +29,10 @@ Variable always : ocid.
 
 Lemma chain_nil w : Chain w []. Proof. split; [constructor|exact I]. Qed.
 
-Lemma require_with_top mc w t c : MCspec mc -> StoreOK w -> cur w = None ->
+Lemma require_with_top mc w t c : MCspec mc -> StoreOK w -> Inv2 w -> cur w = None ->
   okP [] [] [] w (require_with OC mc w t c) (fun _ w' => cur w' = None).
 Proof.
-  intros HM H Hc. unfold require_with.
+  intros HM H J0 Hc. unfold require_with.
   set (w1 := emit w (ERequireStart t c)). set (w2 := get_or_create_task_node w1 t).
   assert (P2 : Post [] [] [] w w2 ([ERequireStart t c] ++ [])).
   { eapply post_seq; [apply post_emit; [exact H|exact I]|apply goc_task_post; exact H]. }
@@ -27,51 +40,51 @@ Proof.
   unfold reserve_require_dependency. rewrite Hc2. cbn [bind].
   eapply okP_pre; [exact P2|].
   apply (okP_bind [] [] [] w2 (mc w2 t) _ (fun _ w' => cur w' = None)).
-  - eapply okP_extra; [|apply (HM w2 t []); [apply (po_ok _ _ _ _ _ _ P2)|apply chain_nil|exact I]].
+  - eapply okP_extra; [|apply (HM w2 t []); [apply (po_ok _ _ _ _ _ _ P2)|apply (po_inv _ _ _ _ _ _ P2 J0)|apply chain_nil|exact I]].
     intros a w' X. cbn beta in X. rewrite X. exact Hc2.
   - intros o w4 s4 P4 Hc4. unfold update_require_dependency.
     change (cur (emit w4 (ERequireEnd t c (oc_stamp (OC c) o) o))) with (cur w4). rewrite Hc4. cbn [bind].
     split; [|exact Hc4]. eexists. apply post_emit; [apply (po_ok _ _ _ _ _ _ P4)|exact I].
 Qed.
 
-Theorem session_require_spec fuel w t : StoreOK w ->
+Theorem session_require_spec fuel w t : StoreOK w -> Inv2 w ->
   okP [] [] [] w (session_require RC OC P always fuel w t) (fun _ _ => True).
 Proof.
-  intros H. unfold session_require, require_td.
+  intros H J0. unfold session_require, require_td.
   set (w1 := emit (set_cur w None) EBuildStart).
   assert (P1 : Post [] [] [] w w1 ([] ++ [EBuildStart])).
   { eapply (post_seq _ _ _ w (set_cur w None)); [apply post_quiet; try reflexivity; [exact H|tauto]|apply post_emit; [exact H|exact I]]. }
   eapply okP_pre; [exact P1|].
-  eapply okP_bind; [apply require_with_top; [apply make_consistent_td_spec|exact H|reflexivity]|].
+  eapply okP_bind; [apply require_with_top; [apply make_consistent_td_spec|exact H|apply (po_inv _ _ _ _ _ _ P1 J0)|reflexivity]|].
   intros o w2 s2 P2 _. split; [|exact I]. eexists. apply post_emit; [apply (po_ok _ _ _ _ _ _ P2)|exact I].
 Qed.
 
 (* what a session prefix did *)
 Record Ran (w w' : world) (seg : list event) : Prop := mkRan {
-  ran_ok : StoreOK w';
+  ran_ok : J w';
   ran_seg : trace w' = rev seg ++ trace w;
   ran_nodup : NoDup (execs seg);
   ran_fresh : forall x, In x (execs seg) -> memN x (consistent w) = false
 }.
-Lemma ran_of_postA w w' seg : PostA [] [] w w' seg -> Ran w w' seg.
-Proof. intros [A1 A2 A3 A4]. constructor; try assumption. intros x X. apply (A4 x X). Qed.
 
 Fixpoint td_only (ops : list sop) : Prop :=
   match ops with [] => True | SRequire _ :: tl => td_only tl | SBottomUp _ :: _ => False end.
 
-Theorem session_td_ran fuel ops : forall w, td_only ops -> StoreOK w ->
-  ~ Exists bug4 (fst (run_session RC OC P always fuel w ops)) ->
-  exists seg, Ran w (snd (run_session RC OC P always fuel w ops)) seg.
+Theorem session_td_ran fuel ops : forall w, td_only ops -> J w ->
+  Exists bug4 (fst (run_session RC OC P always fuel w ops)) \/
+  (Forall good_res (fst (run_session RC OC P always fuel w ops)) /\
+   exists seg, Ran w (snd (run_session RC OC P always fuel w ops)) seg).
 Proof.
-  induction ops as [|o tl IH]; intros w TD H NB; cbn [run_session] in *.
-  - exists []. constructor; [exact H|reflexivity|constructor|intros x []].
+  induction ops as [|o tl IH]; intros w TD [H J0]; cbn [run_session] in *.
+  - right. split; [constructor|]. exists []. constructor; [split; assumption|reflexivity|constructor|intros x []].
   - destruct o as [t|ch]; [|destruct TD]. cbn [td_only] in TD. cbn [run_sop] in *.
-    pose proof (session_require_spec fuel w t H) as SP.
+    pose proof (session_require_spec fuel w t H J0) as SP.
     destruct (session_require RC OC P always fuel w t) as [x w1|k w1|]; cbn [okP] in SP.
-    + destruct SP as [[s1 P1] _]. specialize (IH w1 TD (po_ok _ _ _ _ _ _ P1)).
+    + destruct SP as [[s1 P1] _]. specialize (IH w1 TD (conj (po_ok _ _ _ _ _ _ P1) (po_inv _ _ _ _ _ _ P1 J0))).
       destruct (run_session RC OC P always fuel w1 tl) as [rs w2] eqn:RS. cbn [fst snd] in *.
-      destruct IH as [s2 [B1 B2 B3 B4]]; [intros X; apply NB; right; exact X|].
-      destruct P1 as [A1 A2 A3 A4 A5 A6 A7 A8 A9 A10].
+      destruct IH as [IH|[G [s2 [B1 B2 B3 B4]]]]; [left; right; exact IH|right].
+      split; [constructor; [exact I|exact G]|].
+      destruct P1 as [A1 A2 A3 A4 A5 A6 A7 A8 A9 A10 A11 A12 A13].
       exists (s1 ++ s2). constructor.
       * exact B1.
       * rewrite B2, A5, rev_app_distr, app_assoc. reflexivity.
@@ -79,37 +92,75 @@ Proof.
         intros y Y1 Y2. destruct (A9 y Y1) as [Z|[]]. rewrite (B4 y Y2) in Z. discriminate.
       * intros y Y. rewrite execs_app in Y. apply in_app_or in Y. destruct Y as [Y|Y]; [apply (A7 y Y)|].
         destruct (memN y (consistent w)) eqn:Z; [|reflexivity]. apply A8 in Z. rewrite (B4 y Y) in Z. discriminate.
-    + cbn [fst snd] in *. destruct SP as [->|[s1 PA]]; [exfalso; apply NB; left; reflexivity|].
-      exists s1. apply ran_of_postA. exact PA.
-    + cbn [fst snd]. exists []. constructor; [exact H|reflexivity|constructor|intros x []].
+    + cbn [fst snd] in *. destruct SP as [->|[U [s1 [A1 A2 A3 A4 A5]]]]; [left; left; reflexivity|right].
+      split; [constructor; [exact U|constructor]|]. exists s1. constructor; [split; [exact A1|apply A5; exact J0]|exact A2|exact A3|].
+      intros x X. apply (A4 x X).
+    + cbn [fst snd]. right. split; [constructor; [exact I|constructor]|].
+      exists []. constructor; [split; assumption|reflexivity|constructor|intros x []].
 Qed.
 
 (* the statement on the session's own event stream (a session starts with an empty stream) *)
-Theorem session_td_at_most_once fuel w ops : StoreOK w -> td_only ops ->
+Theorem session_td_at_most_once fuel w ops : J w -> td_only ops ->
   ~ Exists bug4 (fst (run_session RC OC P always fuel (new_session w) ops)) ->
   NoDup (execs (rev (trace (snd (run_session RC OC P always fuel (new_session w) ops))))).
 Proof.
-  intros H TD NB. destruct (session_td_ran fuel ops (new_session w) TD (StoreOK_new_session w H) NB) as [seg [_ B2 B3 _]].
+  intros H TD NB. destruct (session_td_ran fuel ops (new_session w) TD (J_new_session w H)) as [X|[_ [seg [_ B2 B3 _]]]]; [contradiction|].
   rewrite B2. cbn [new_session trace]. rewrite app_nil_r, rev_involutive. exact B3.
 Qed.
 
 (* every executed task was inconsistent (not yet checked or executed in this session) when the operation started, and a
    require that returns leaves every executed task consistent, so that it is not executed again in the session *)
-Theorem session_require_execs fuel w t : StoreOK w ->
+Theorem session_require_execs fuel w t : J w ->
   match session_require RC OC P always fuel w t with
-  | Done _ w' => exists seg, trace w' = rev seg ++ trace w /\ NoDup (execs seg) /\
+  | Done _ w' => J w' /\ exists seg, trace w' = rev seg ++ trace w /\ NoDup (execs seg) /\
                    forall x, In x (execs seg) -> memN x (consistent w) = false /\ memN x (consistent w') = true
-  | Abort k w' => k = ABug 4 \/ exists seg, trace w' = rev seg ++ trace w /\ NoDup (execs seg) /\
-                   forall x, In x (execs seg) -> memN x (consistent w) = false
+  | Abort k w' => k = ABug 4 \/ (user_abort k /\ J w' /\ exists seg, trace w' = rev seg ++ trace w /\ NoDup (execs seg) /\
+                   forall x, In x (execs seg) -> memN x (consistent w) = false)
   | OutOfFuel => True
   end.
 Proof.
-  intros H. pose proof (session_require_spec fuel w t H) as SP.
+  intros [H J0]. pose proof (session_require_spec fuel w t H J0) as SP.
   destruct (session_require RC OC P always fuel w t) as [x w1|k w1|]; cbn [okP] in SP; [| |exact I].
-  - destruct SP as [[s1 [A1 A2 A3 A4 A5 A6 A7 A8 A9 A10]] _]. exists s1. split; [exact A5|]. split; [exact A6|].
+  - destruct SP as [[s1 [A1 A2 A3 A4 A5 A6 A7 A8 A9 A10 A11 A12 A13]] _]. split; [split; [exact A1|apply A13; exact J0]|].
+    exists s1. split; [exact A5|]. split; [exact A6|].
     intros y Y. split; [apply (A7 y Y)|]. destruct (A9 y Y) as [Z|[]]. exact Z.
-  - destruct SP as [->|[s1 [A1 A2 A3 A4]]]; [left; reflexivity|right]. exists s1. split; [exact A2|]. split; [exact A3|].
-    intros y Y. apply (A4 y Y).
+  - destruct SP as [->|[U [s1 [A1 A2 A3 A4 A5]]]]; [left; reflexivity|right]. split; [exact U|]. split; [split; [exact A1|apply A5; exact J0]|].
+    exists s1. split; [exact A2|]. split; [exact A3|]. intros y Y. apply (A4 y Y).
 Qed.
+
+(* ---- whole histories of top-down sessions and external changes ---- *)
+Fixpoint td_hist (h : list step) : Prop :=
+  match h with
+  | [] => True
+  | HSession ops :: tl => td_only ops /\ td_hist tl
+  | _ :: tl => td_hist tl
+  end.
+
+Theorem history_td_sound fuel h : forall w, td_hist h -> J w ->
+  Exists (Exists bug4) (fst (run_history RC OC P always fuel w h)) \/
+  (Forall (Forall good_res) (fst (run_history RC OC P always fuel w h)) /\ J (snd (run_history RC OC P always fuel w h))).
+Proof.
+  induction h as [|s tl IH]; intros w TD Jw; cbn [run_history]; [right; split; [constructor|exact Jw]|].
+  assert (X : Exists bug4 (fst (run_step RC OC P always fuel w s)) \/
+              (Forall good_res (fst (run_step RC OC P always fuel w s)) /\ J (snd (run_step RC OC P always fuel w s)))).
+  { destruct s as [r v|f|ops]; cbn [run_step fst snd].
+    - right. split; [constructor|apply J_set_content; exact Jw].
+    - right. split; [constructor|exact Jw].
+    - destruct TD as [TD _]. destruct (session_td_ran fuel ops (new_session w) TD (J_new_session w Jw)) as [B|[G [seg R]]]; [left; exact B|right].
+      split; [exact G|apply (ran_ok _ _ _ R)]. }
+  assert (TD' : td_hist tl) by (destruct s; [exact TD|exact TD|exact (proj2 TD)]).
+  destruct (run_step RC OC P always fuel w s) as [r w']. cbn [fst snd] in X.
+  destruct X as [X|[G Jw']].
+  - destruct (run_history RC OC P always fuel w' tl) as [rs w'']. cbn [fst]. left. left. exact X.
+  - specialize (IH w' TD' Jw'). destruct (run_history RC OC P always fuel w' tl) as [rs w'']. cbn [fst snd] in *.
+    destruct IH as [IH|[G' Jw'']]; [left; right; exact IH|right]. split; [constructor; assumption|exact Jw''].
+Qed.
+
+(* from the empty store: every result of every session of every history is a value, a user-level abort or out-of-fuel --
+   never an internal-invariant error -- and the final store satisfies both invariants *)
+Theorem history_td_no_internal_error fuel h : td_hist h ->
+  ~ Exists (Exists bug4) (fst (run_history RC OC P always fuel init_world h)) ->
+  Forall (Forall good_res) (fst (run_history RC OC P always fuel init_world h)) /\ J (snd (run_history RC OC P always fuel init_world h)).
+Proof. intros TD NB. destruct (history_td_sound fuel h init_world TD J_init) as [X|X]; [contradiction|exact X]. Qed.
 
 End Z.
